@@ -22,7 +22,7 @@ def deterministic_proba(input_string: str) -> float:
         float: A number in the range [0.0, 1.0), picked uniformly
         from the space of all possible strings
     """
-    digest = hashlib.md5(input_string.encode("ascii")).hexdigest()
+    digest = hashlib.md5(input_string.encode("utf-8")).hexdigest()
     max_int = 0x100000000
     high_bits = int(digest[:8], 16)  # make an int of the highest 8 hex chars
     return (
